@@ -81,7 +81,9 @@ class HTTPConnection(Mapping[str, Any], MoreInfoFromHeaderMixin):
         The full URL of this request.
         """
         try:
-            return URL(scope=self._scope)
+            url = URL(scope=self._scope)
+            url.port  # a malformed port in the Host header only shows when it is read
+            return url
         except ValueError:
             # e.g. Host: "[", a query string that is not UTF-8
             raise HTTPException(400, content="Malformed request URL") from None
